@@ -2,7 +2,8 @@
    The charset of the file is an oracle: [dec] decodes a byte string, [enc] encodes one character. *)
 From Coq Require Import NArith List Bool.
 From I18n Require Import Lib.Outcome Model.PoUnescape Model.PoParser Spec.PoSyntax Proofs.PoUnescape Proofs.PoStrings
-  Proofs.PoParser Proofs.PoWitness Proofs.PoLex Model.PoLexer Proofs.PoOpen Proofs.PoDetect Proofs.PoLoad Proofs.PoUnescapeTotal.
+  Proofs.PoParser Proofs.PoWitness Proofs.PoLex Model.PoLexer Proofs.PoOpen Proofs.PoDetect Proofs.PoLoad Proofs.PoUnescapeTotal
+  Model.PoPy Generated.PolibSrc Proofs.PolibSrc.
 Import ListNotations.
 Local Open Scope N_scope.
 
@@ -240,6 +241,81 @@ Theorem C10_load_po_no_crash : forall C raw c, load_po C raw <> Crash c.
 Proof. exact load_po_no_crash. Qed.
 Print Assumptions C10_load_po_no_crash.
 
+(* (6) SOURCE TIE (notes/SRC13.md).  Generated/PolibSrc.v is the translation, made on every run by tools/gen/gen_polib_src.py, of
+   the text of lib/polib4us.py: the five regex pattern texts, polib_unescape and its callback, Codecs.open, the detect_encoding and
+   POFile.find patches, the default encoding.  Each translated definition equals the hand-written model, for all arguments.
+   (polib's own parser is third party: Model/PoParser.v stays tied by correspondence.) *)
+(* the patterns are the texts the model's scanners (escape_len, long_x_at, short_x_at, iterlines, atypical_comment) were written for *)
+Theorem C10_source_tie_regex_texts :
+  src__escapes_re = re_escapes_text /\ src__long_x_escape_re = re_long_x_text /\ src__short_x_escape_re = re_short_x_text
+  /\ src__iterlines = re_iterlines_text /\ src__atypical_comment = re_atypical_text.
+Proof. exact src_regex_texts. Qed.
+Print Assumptions C10_source_tie_regex_texts.
+
+(* the callback `unescape(match)`: both normalisations, literal_eval of the bytes literal, ASCII first, then the file's codec *)
+Theorem C10_source_tie_unescape_callback : forall dec run, src_unescape dec run = unescape_run dec run.
+Proof. exact src_unescape_eq. Qed.
+Print Assumptions C10_source_tie_unescape_callback.
+
+(* polib_unescape(s) = _escapes_re.sub(unescape, s) *)
+Theorem C10_source_tie_polib_unescape : forall dec s, src_polib_unescape dec s = unescape dec s.
+Proof. exact src_polib_unescape_eq. Qed.
+Print Assumptions C10_source_tie_polib_unescape.
+
+(* the loop of the generator Codecs.open, for every list of lines and every state *)
+Theorem C10_source_tie_codecs_open_loop : forall C ls pending empty,
+  src_codecs_open_loop1 C ls pending empty = open_lines ls pending empty.
+Proof. exact src_codecs_open_loop_eq. Qed.
+Print Assumptions C10_source_tie_codecs_open_loop.
+
+(* Codecs.open(path, 'rt', enc) on a file with the bytes raw *)
+Theorem C10_source_tie_codecs_open : forall C enc raw,
+  src_codecs_open C s_rt enc raw =
+  match c_decode C (if c_ascii_compatible C enc then enc else s_ascii) raw with
+  | None => Err LDecode
+  | Some text => Ok (codecs_open_text text)
+  end.
+Proof. exact src_codecs_open_eq. Qed.
+Print Assumptions C10_source_tie_codecs_open.
+
+Theorem C10_source_tie_codecs_open_mode : forall C mode enc raw,
+  list_eqb mode s_rt = false -> list_eqb mode s_rU = false -> src_codecs_open C mode enc raw = Crash CNotImplemented.
+Proof. exact src_codecs_open_mode. Qed.
+Print Assumptions C10_source_tie_codecs_open_mode.
+
+(* the model's pofile_with = the translated Codecs.open followed by polib's parser *)
+Theorem C10_source_tie_pofile : forall C enc raw,
+  pofile_with C enc raw =
+  match src_codecs_open C s_rt enc raw with
+  | Ok lines =>
+    match parse_lines (mkOracles (c_decode C enc) (c_udigit C) (c_uisdigit C)) lines with
+    | Ok f => Ok (mkLoaded enc f)
+    | Err e => Err (LSyntax e)
+    | Crash c => Crash c
+    end
+  | Err e => Err e
+  | Crash c => Crash c
+  end.
+Proof. exact pofile_with_src. Qed.
+Print Assumptions C10_source_tie_pofile.
+
+(* detect_encoding_patch: a PO file gets polib's detect_encoding, an MO file None;  pofile_find_patch: find() is None;
+   default_encoding_patch: 'ASCII' *)
+Theorem C10_source_tie_detect_encoding : forall lookup raw,
+  src_detect_encoding (detect_encoding lookup) raw false = Some (detect_encoding lookup raw).
+Proof. exact src_detect_encoding_po. Qed.
+Print Assumptions C10_source_tie_detect_encoding.
+
+Theorem C10_source_tie_pofile_find : forall (T A B K : Type) (self : A) (args : B) (kwargs : K),
+  @src_pofile_find T A B K self args kwargs = None.
+Proof. exact src_pofile_find_none. Qed.
+Print Assumptions C10_source_tie_pofile_find.
+
+Theorem C10_source_tie_default_encoding : src_default_encoding = s_ascii.
+Proof. exact src_default_encoding_eq. Qed.
+Print Assumptions C10_source_tie_default_encoding.
+
+
 (* non-vacuity *)
 Definition latin1 : decoder := fun b => Some b.
 Definition utf8_2 : decoder := fun b =>      (* enough of UTF-8 for the examples *)
@@ -297,3 +373,9 @@ Example C10_ex_bad_escape :  (* \\8 is an escaped backslash and an 8: silent; \8
   bad_escape [92;92;56] = false /\ bad_escape [92;56] = true /\ bad_escape [92;52;48;48] = true /\
   bad_escape [92;51;55;55] = false /\ bad_escape [92;49;56] = false.
 Proof. vm_compute. repeat split; reflexivity. Qed.
+
+Example C10_src_ex :    (* the TRANSLATED functions compute: a\x0cb = 61 CB;  `#~x` is normalised, a trailing comment is held back *)
+  src_polib_unescape latin1 [97; 92;120;48;99;98] = Ok ([97; 203], false) /\
+  src_codecs_open (mkCodecs (fun _ => true) (fun _ => true) (fun _ b => Some b) (fun _ => None) (fun _ => false)) s_rt [85]
+    [35;120;10; 109;10; 35;32;122;10] = Ok [[35;32;120;10]; [109;10]].
+Proof. vm_compute. split; reflexivity. Qed.
